@@ -231,6 +231,8 @@ void link_free(link * l);
 void footnote_free(footnote * f);
 
 char * label_from_token(const char * source, token * t);
+short random_anchor_from_seed(unsigned int seed);
+
 char * label_from_header(const char * source, token * t, scratch_pad * scratch);
 
 void parse_brackets(const char * source, scratch_pad * scratch, token * bracket, link ** link, short * skip_token, bool * free_link);
